@@ -1,6 +1,6 @@
 """Registration of the claimed properties (see DESIGN.md section 4)."""
 
-from .registry import register, SeqPart, ConcPart, SingleSweepPart, SingleRandomPart
+from .registry import register, SeqPart, ConcPart, ConcPairsPart, SingleSweepPart, SingleRandomPart
 
 COMMON_ASSUME = [
     "the kernel file system (tmpfs sandbox) and CPython's os/io/shutil/tempfile/pathlib are correct",
@@ -71,12 +71,12 @@ register("C07", "exploration", CONC_RULE,
                           "StoreObjectForPidAlreadyInProgress accepted when a concurrent store_object or "
                           "delete_object owns the pid; <= 4 tasks, <= 8 calls per scenario"],
          40, 480,
-         [ConcPart("C07", "obj")])
+         [ConcPairsPart("C07", "obj", "conc-pairs", weight=1.0), ConcPart("C07", "obj", weight=2.0)])
 
 register("C12", "exploration", CONC_RULE,
          COMMON_ASSUME + ["a racing reader may report not-found as ValueError or FileNotFoundError"],
          40, 480,
-         [ConcPart("C12", "meta")])
+         [ConcPairsPart("C12", "meta", "conc-pairs", weight=1.0), ConcPart("C12", "meta", weight=2.0)])
 
 register("C08", "exploration",
          CONC_RULE + "; C08 looks only at: scheduler never ends with a blocked unfinished task (deadlock) nor hits "
@@ -85,7 +85,9 @@ register("C08", "exploration",
          "runs of C13 apply the same oracles after an injected I/O error",
          COMMON_ASSUME + ["blocking is simulated: a task that would block is parked by the scheduler, so slow != blocked"],
          40, 480,
-         [ConcPart("C08", "obj", name="conc-obj"), ConcPart("C08", "meta", name="conc-meta", weight=0.7)])
+         [ConcPairsPart("C08", "obj", "conc-pairs-obj", per_shape=(2, 20), weight=0.8),
+          ConcPairsPart("C08", "meta", "conc-pairs-meta", per_shape=(2, 20), weight=0.5),
+          ConcPart("C08", "obj", name="conc-obj"), ConcPart("C08", "meta", name="conc-meta", weight=0.7)])
 
 register("C13", "fault_enumeration",
          "two parts: a complete sweep of the (start state x call) menu over every fault site (create, open for "
